@@ -85,9 +85,15 @@ Proof.
     intros _. cbn [fast_clear st]. unfold qsize in *. cbn [arr fast_clear]. split; congruence.
   - destruct r.
     + split; [apply inv_released; [assumption|congruence]|split; [reflexivity|split; [reflexivity|discriminate]]].
-    + destruct (cleared_ok ow q I ltac:(lia)) as (J1&J2&J3&J5&J4).
-      split; [apply inv_fast_clear; assumption|]. split; [reflexivity|]. split; [exact J5|].
-      intros _. cbn [fast_clear st]. unfold qsize in *. cbn [arr fast_clear]. split; congruence.
+    + destruct (Nat.eq_dec (qsize q) 0) as [Hz|Hz].
+      * (* an adopted heap array without slots *)
+        assert (Hc0 : cnt q = 0) by (pose proof (inv_cnt _ _ q I); lia). rewrite Hc0. cbn [clear_window].
+        replace (if ow then q else q) with q by (destruct ow; reflexivity).
+        split; [apply inv_fast_clear; [assumption|intros _ i Hi; lia]|]. split; [reflexivity|]. split; [reflexivity|].
+        intros _. split; [exact Es|reflexivity].
+      * destruct (cleared_ok ow q I ltac:(lia)) as (J1&J2&J3&J5&J4).
+        split; [apply inv_fast_clear; assumption|]. split; [reflexivity|]. split; [exact J5|].
+        intros _. cbn [fast_clear st]. unfold qsize in *. cbn [arr fast_clear]. split; congruence.
 Qed.
 
 Lemma abs_cnt0 q : cnt q = 0 -> abs q = [].
